@@ -1075,6 +1075,9 @@ class KeyTranslatingStore(Store):
         tkey = self.translate_key(key)
         metadata = self.substore.get_metadata(tkey)
         metadata["key"] = key
+        if isinstance(metadata.get("fileinfo"), dict):
+            # the name of the sub-store's root is the name of the mount point
+            metadata["fileinfo"]["name"] = key_name(key)
         if "recipes_key" in metadata:
             metadata["recipes_key"] = self.translate_key(
                 metadata["recipes_key"], inverse=True
